@@ -1382,8 +1382,336 @@ theorem create_spec {s : State} (I : Inv s) {i : Nat} (hv : vacant s i = true) (
   refine ⟨J, by rw [c1, C.2.1]; rfl, fun k hk => by rw [c2 k hk, C.2.2 k hk], ⟨o2, d1, d2, d3⟩,
     fun k hk => by rw [c4 k hk, ho0 k hk], by rw [c5]; simp, c6, c7, c8, c9⟩
 
+/-! ### faults: allocation failure (`std::bad_alloc` out of `add`) and exceptions out of callables -/
+
+theorem handlesOf_length {s : State} {o : Obj} (w : ObjWf s o) : (handlesOf s o).length = o.cf / 2 := by
+  simp only [handlesOf]
+  split
+  · rename_i hf
+    obtain ⟨c, hg, hlen, hle, -⟩ := w.ext_ok hf
+    simp only [cellsOf, hg, Option.getD_some, List.length_take]; omega
+  · rename_i hf
+    have := w.inl_le (by omega)
+    simp only [List.length_take, w.inl_len]; omega
+
+/-- `_count_flag -= 2*m` on object `i`: the last `m` handles are dropped, the storage is kept -/
+theorem undo_spec {s : State} (H : HeapOk s) (O : Own s) {i : Nat} {o : Obj} (hi : s.obj i = some o) (m : Nat)
+    (hm : m ≤ o.cf / 2) :
+    HeapOk (undoAdds s i m) ∧ Own (undoAdds s i m)
+    ∧ handles (undoAdds s i m) i = (handles s i).take (o.cf / 2 - m)
+    ∧ (∀ k, k ≠ i → handles (undoAdds s i m) k = handles s k)
+    ∧ (∀ k, (undoAdds s i m).obj k = if k = i then some { o with cf := o.cf - 2 * m } else s.obj k)
+    ∧ Quiet s (undoAdds s i m) := by
+  have hil := obj_lt hi
+  have w := O.wf i o hi
+  have e : undoAdds s i m = setObj s i (some { o with cf := o.cf - 2 * m }) := by simp [undoAdds, hi]
+  rw [e]
+  have hobj : ∀ k, (setObj s i (some { o with cf := o.cf - 2 * m })).obj k
+      = if k = i then some { o with cf := o.cf - 2 * m } else s.obj k := fun k => obj_setObj _ i _ k hil
+  have hp : (o.cf - 2 * m) % 2 = o.cf % 2 := by omega
+  have hd : (o.cf - 2 * m) / 2 = o.cf / 2 - m := by omega
+  refine ⟨heapOk_of_eq H rfl rfl rfl [] (by simp), ?_, ?_, ?_, hobj, quiet_setObj _ _ _⟩
+  · refine own_step O hi hobj (fun a _ _ => rfl) ⟨w.inl_len, ?_, ?_⟩ ?_ ?_
+    · intro hh
+      have hh' : (o.cf - 2 * m) % 2 = 0 := hh
+      have := w.inl_le (by omega)
+      show (o.cf - 2 * m) / 2 ≤ 3; omega
+    · intro hh
+      have hh' : (o.cf - 2 * m) % 2 = 1 := hh
+      obtain ⟨c, hg, hlen, hle, hpos⟩ := w.ext_ok (by omega)
+      exact ⟨c, hg, hlen, by show (o.cf - 2 * m) / 2 ≤ o.cap; omega, hpos⟩
+    · intro hh; have hh' : (o.cf - 2 * m) % 2 = 1 := hh; exact Or.inl ⟨by omega, rfl⟩
+    · intro hh; exact Or.inl ⟨by show (o.cf - 2 * m) % 2 = 1; omega, rfl⟩
+  · simp only [handles, hi, hobj i, if_true]
+    show handlesOf s { o with cf := o.cf - 2 * m } = _
+    simp only [handlesOf, hp, hd]
+    split
+    · simp only [cellsOf, List.take_take]; congr 1; omega
+    · simp only [List.take_take]; congr 1; omega
+  · intro k hk; exact handles_congr (by rw [hobj k]; simp [hk]) (fun _ _ _ => rfl)
+
+theorem add_none {s : State} {i : Nat} (h : s.obj i = none) (x : Ptr) : add s i x = s := by simp [add, h]
+
+theorem addAll_none {s : State} {i : Nat} (h : s.obj i = none) (hs : List Ptr) : addAll s i hs = s := by
+  induction hs with
+  | nil => rfl
+  | cons x t ih => simp only [addAll, List.foldl_cons, add_none h]; exact ih
+
+theorem addAll_cons (s : State) (i : Nat) (x : Ptr) (t : List Ptr) : addAll s i (x :: t) = addAll (add s i x) i t := rfl
+
+/-- the faulty loop either runs to its end (then it is the plain loop) or stops after a prefix -/
+theorem addAllF_cases (i : Nat) (hs : List Ptr) : ∀ (s : State) (k m0 : Nat),
+    addAllF s i hs k m0 = (addAll s i hs, none)
+    ∨ ∃ pre suf, hs = pre ++ suf ∧ addAllF s i hs k m0 = (addAll s i pre, some (m0 + pre.length)) := by
+  induction hs with
+  | nil => intro s k m0; left; rfl
+  | cons x t ih =>
+      intro s k m0
+      cases ho : s.obj i with
+      | none => left; simp only [addAllF, ho, addAll_none ho]
+      | some o =>
+          simp only [addAllF, ho]
+          by_cases hn : needsAlloc o = true
+          · simp only [hn, if_true]
+            by_cases hk : k = 0
+            · right; exact ⟨[], x :: t, rfl, by simp [hk, addAll]⟩
+            · simp only [hk, if_false]
+              rcases ih (add s i x) (k - 1) (m0 + 1) with h | ⟨pre, suf, e, h⟩
+              · left; rw [h, addAll_cons]
+              · right; exact ⟨x :: pre, suf, by rw [e]; rfl, by rw [h, addAll_cons]; simp; omega⟩
+          · simp only [hn]
+            rcases ih (add s i x) k (m0 + 1) with h | ⟨pre, suf, e, h⟩
+            · left; simpa [addAll_cons] using h
+            · right; exact ⟨x :: pre, suf, by rw [e]; rfl, by simp [h, addAll_cons]; omega⟩
+
+/-- `sp_i << std::move(sp_j)` under a fault plan: either no allocation failed — then it is the plain merge —, or
+`std::bad_alloc` came out and every suspend point holds exactly what it held before (strong guarantee at the level of
+the handles; the target may have moved to a bigger block on the way), nothing was resumed, queued, handed in or popped -/
+theorem mergeF_spec {s : State} (I : Inv s) {i j : Nat} {oi oj : Obj} (hi : s.obj i = some oi) (_hj : s.obj j = some oj)
+    (_hij : i ≠ j) (k : Nat) :
+    stepMergeF s i j oj k = (stepMerge s i j oj, Res.unit)
+    ∨ ((stepMergeF s i j oj k).2 = Res.threw ∧ Inv (stepMergeF s i j oj k).1
+        ∧ (∀ x, handles (stepMergeF s i j oj k).1 x = handles s x)
+        ∧ Quiet s (stepMergeF s i j oj k).1
+        ∧ (∃ oi', (stepMergeF s i j oj k).1.obj i = some oi' ∧ oi'.typed = oi.typed ∧ oi'.value = oi.value)
+        ∧ (∀ x, x ≠ i → (stepMergeF s i j oj k).1.obj x = s.obj x)) := by
+  rcases addAllF_cases i (handlesOf s oj) s k 0 with h | ⟨pre, suf, e, h⟩
+  · left; simp only [stepMergeF, h]; rfl
+  · right
+    simp only [stepMergeF, h]
+    have A := addAll_spec I.heap I.own hi pre
+    obtain ⟨o1, h1, ht, hv, hh⟩ := A.obj_i
+    have w1 := A.own.wf i o1 h1
+    have hlen : o1.cf / 2 = oi.cf / 2 + pre.length := by
+      rw [← handlesOf_length w1, hh, List.length_append, handlesOf_length (I.own.wf i oi hi)]
+    have U := undo_spec A.heap A.own h1 (0 + pre.length) (by omega)
+    obtain ⟨UH, UO, Ui, Uo, Uobj, UQ⟩ := U
+    generalize hS : undoAdds (addAll s i pre) i (0 + pre.length) = S at UH UO Ui Uo Uobj UQ
+    have hQ : Quiet s S := A.quiet.trans UQ
+    have hself : handles S i = handles s i := by
+      rw [Ui, A.handles_self hi, hlen]
+      have : oi.cf / 2 + pre.length - (0 + pre.length) = (handles s i).length := by
+        simp only [handles, hi, handlesOf_length (I.own.wf i oi hi)]; omega
+      rw [this, List.take_left']
+      rfl
+    have hall : ∀ x, handles S x = handles s x := by
+      intro x
+      by_cases ex : x = i
+      · rw [ex]; exact hself
+      · rw [Uo x ex, A.handles_other ex]
+    refine ⟨trivial, ⟨UH, UO, ?_, ?_⟩, hall, hQ,
+      ⟨{ o1 with cf := o1.cf - 2 * (0 + pre.length) }, by rw [Uobj i]; simp, ht, hv⟩, ?_⟩
+    · intro ha; rw [hQ.queue]; exact I.idle (by rw [← hQ.active]; exact ha)
+    · intro x
+      have c := I.conserve x
+      have hheld : held S = held s := by
+        simp only [held, hQ.len]; exact heldAll_congr (fun y _ => hall y)
+      rw [hheld, hQ.given, hQ.queue, hQ.popped, hQ.resumed]; exact c
+    · intro x ex; rw [Uobj x]; simp [ex, A.obj_other x ex]
+
+theorem freeBlk_given (t : State) (a : Nat) : (freeBlk t a).given = t.given ∧ (freeBlk t a).popped = t.popped := by
+  unfold freeBlk; split <;> exact ⟨rfl, rfl⟩
+
+theorem clearInternal_given (t : State) (i : Nat) (o : Obj) :
+    (clearInternal t i o).given = t.given ∧ (clearInternal t i o).popped = t.popped := by
+  unfold clearInternal
+  split
+  · exact freeBlk_given t o.ext
+  · exact ⟨rfl, rfl⟩
+
+theorem suspendNow_given (t : State) (i : Nat) (o : Obj) :
+    (suspendNow t i o).given = t.given ∧ (suspendNow t i o).popped = t.popped := by
+  unfold suspendNow
+  rw [(clearInternal_given _ i o).1, (clearInternal_given _ i o).2]
+  split
+  · exact ⟨rfl, rfl⟩
+  · split <;> exact ⟨rfl, rfl⟩
+
+/-- `coro_queue::resume(h)` for every `h` of `hs` under an installed queue -/
+theorem ready_spec {s : State} (I : Inv s) (ha : s.active = true) (hs : List Ptr) :
+    Inv (ready s hs) ∧ (∀ k, (ready s hs).obj k = s.obj k) ∧ (∀ k, handles (ready s hs) k = handles s k) := by
+  refine ⟨⟨heapOk_of_eq I.heap rfl rfl rfl [] (by simp [ready, enqueue]), own_of_eq I.own rfl rfl, ?_, ?_⟩,
+    fun _ => rfl, fun k => handles_of_eq rfl rfl k⟩
+  · intro h; rw [show (ready s hs).active = s.active from rfl, ha] at h; cases h
+  · intro x
+    have c := I.conserve x
+    rw [held_of_eq (s' := ready s hs) (s := s) rfl rfl]
+    show List.count x (s.given ++ hs) = _ + List.count x (s.queue ++ hs) + List.count x (resumed s) + List.count x s.popped
+    cnt; omega
+
+/-- what `install_queue_and_call(fn)` does, whether `fn` returns or throws: everything `fn` made ready, everything the
+suspend point it cleared held and everything that was already queued has been resumed, each once; the queue is empty and
+`instance` is what it was before the call -/
+theorem call_spec {s : State} (I : Inv s) (hs : List Ptr) (j : Option Nat) :
+    Inv (stepCall s hs j) ∧ (stepCall s hs j).active = s.active ∧ (stepCall s hs j).queue = []
+    ∧ (stepCall s hs j).objs.length = s.objs.length
+    ∧ (stepCall s hs j).given = s.given ++ hs
+    ∧ (stepCall s hs j).popped = s.popped
+    ∧ ((∀ jj, j = some jj → s.obj jj = none) →
+        resumed (stepCall s hs j) = resumed s ++ s.queue ++ hs ∧ (∀ k, (stepCall s hs j).obj k = s.obj k)
+        ∧ (∀ k, handles (stepCall s hs j) k = handles s k))
+    ∧ (∀ jj o, j = some jj → s.obj jj = some o →
+        resumed (stepCall s hs j) = resumed s ++ s.queue ++ hs ++ handles s jj
+        ∧ (∀ k, (stepCall s hs j).obj k = if k = jj then some { o with cf := 0 } else s.obj k)
+        ∧ handles (stepCall s hs j) jj = []
+        ∧ (∀ k, k ≠ jj → handles (stepCall s hs j) k = handles s k)) := by
+  have I1 := inv_active I
+  obtain ⟨R, Robj, Rh⟩ := ready_spec I1 rfl hs
+  have plain : callBody { s with active := true } hs j = ready { s with active := true } hs →
+      Inv (stepCall s hs j) ∧ (stepCall s hs j).active = s.active ∧ (stepCall s hs j).queue = []
+      ∧ (stepCall s hs j).objs.length = s.objs.length ∧ (stepCall s hs j).given = s.given ++ hs
+      ∧ (stepCall s hs j).popped = s.popped
+      ∧ resumed (stepCall s hs j) = resumed s ++ s.queue ++ hs ∧ (∀ k, (stepCall s hs j).obj k = s.obj k)
+      ∧ (∀ k, handles (stepCall s hs j) k = handles s k) := by
+    intro e
+    have e' : stepCall s hs j = { flushAll (ready { s with active := true } hs) with active := s.active } := by
+      simp only [stepCall, e]
+    rw [e']
+    refine ⟨inv_flushAll R s.active, rfl, rfl, rfl, rfl, rfl, ?_, fun _ => rfl, fun k => ?_⟩
+    · have e2 : resumed { flushAll (ready { s with active := true } hs) with active := s.active }
+          = resumed (ready { s with active := true } hs) ++ (ready { s with active := true } hs).queue :=
+        resumed_flushAll _
+      rw [e2]; show resumed s ++ (s.queue ++ hs) = _; simp
+    · exact (handles_of_eq rfl rfl k).trans (Rh k)
+  cases j with
+  | none =>
+      obtain ⟨a, b, c, d, e, f, g⟩ := plain rfl
+      exact ⟨a, b, c, d, e, f, fun _ => g, fun jj o h => by cases h⟩
+  | some jj =>
+      cases ho : s.obj jj with
+      | none =>
+          have hb : callBody { s with active := true } hs (some jj) = ready { s with active := true } hs := by
+            simp only [callBody]
+            have : ({ s with active := true } : State).obj jj = none := ho
+            rw [this]
+          obtain ⟨a, b, c, d, e, f, g⟩ := plain hb
+          exact ⟨a, b, c, d, e, f, fun _ => g, fun jj' o h h' => by cases h; rw [ho] at h'; cases h'⟩
+      | some o =>
+          have ho1 : (ready { s with active := true } hs).obj jj = some o := by rw [Robj]; exact ho
+          have hb : callBody { s with active := true } hs (some jj)
+              = suspendNow (ready { s with active := true } hs) jj o := by
+            simp only [callBody]
+            have : ({ s with active := true } : State).obj jj = some o := ho
+            rw [this]
+          obtain ⟨SI, Sself, Sother, Sq, Sr, Sobj, Sact, Slen⟩ := suspendNow_spec R ho1
+          have hact : (ready { s with active := true } hs).active = true := rfl
+          simp only [hact, if_true] at Sq Sr
+          have Sgiven : (suspendNow (ready { s with active := true } hs) jj o).given = s.given ++ hs :=
+            (suspendNow_given _ jj o).1
+          have Spopped : (suspendNow (ready { s with active := true } hs) jj o).popped = s.popped :=
+            (suspendNow_given _ jj o).2
+          have e' : stepCall s hs (some jj)
+              = { flushAll (suspendNow (ready { s with active := true } hs) jj o) with active := s.active } := by
+            simp only [stepCall, hb]
+          rw [e']
+          generalize hY : suspendNow (ready { s with active := true } hs) jj o = Y at SI Sself Sother Sq Sr Sobj Sact Slen Sgiven Spopped
+          have hres : resumed { flushAll Y with active := s.active } = resumed s ++ s.queue ++ hs ++ handles s jj := by
+            have e2 : resumed { flushAll Y with active := s.active } = resumed Y ++ Y.queue := resumed_flushAll Y
+            rw [e2, Sr, Sq, Rh jj]
+            show resumed s ++ [] ++ (s.queue ++ hs ++ handles { s with active := true } jj) = _
+            rw [handles_of_eq (s' := { s with active := true }) (s := s) rfl rfl]; simp
+          have hobjs : ∀ k, ({ flushAll Y with active := s.active } : State).obj k
+              = if k = jj then some { o with cf := 0 } else s.obj k := by
+            intro k
+            show Y.obj k = _
+            rw [Sobj k, Robj k]; rfl
+          have hh : ∀ k, handles ({ flushAll Y with active := s.active } : State) k = handles Y k :=
+            fun k => handles_of_eq rfl rfl k
+          refine ⟨inv_flushAll SI s.active, rfl, rfl, Slen, Sgiven, Spopped,
+            (fun h => by have := h jj rfl; rw [ho] at this; cases this), ?_⟩
+          intro jj' o' e1 e2
+          cases e1
+          rw [ho] at e2; cases e2
+          refine ⟨hres, hobjs, by rw [hh, Sself], fun k hk => ?_⟩
+          rw [hh, Sother k hk, Rh k]; exact handles_of_eq rfl rfl k
+
+/-- every fault operation preserves the invariant and the pool size, and leaves type and value of every object alone -/
+theorem stepF_spec {s : State} (I : Inv s) (f : FOp) :
+    Inv (stepF s f).1 ∧ (stepF s f).1.objs.length = s.objs.length
+    ∧ (∀ k o o', s.obj k = some o → (stepF s f).1.obj k = some o' → o'.typed = o.typed ∧ o'.value = o.value) := by
+  have refl3 : Inv s ∧ s.objs.length = s.objs.length
+      ∧ (∀ k o o', s.obj k = some o → s.obj k = some o' → o'.typed = o.typed ∧ o'.value = o.value) :=
+    ⟨I, rfl, fun k o o' h h' => by rw [h] at h'; cases h'; exact ⟨rfl, rfl⟩⟩
+  have call_case : ∀ hs j, Inv (stepCall s hs j) ∧ (stepCall s hs j).objs.length = s.objs.length
+      ∧ (∀ k o o', s.obj k = some o → (stepCall s hs j).obj k = some o' → o'.typed = o.typed ∧ o'.value = o.value) := by
+    intro hs j
+    obtain ⟨CI, -, -, Clen, -, -, Cnone, Csome⟩ := call_spec I hs j
+    refine ⟨CI, Clen, ?_⟩
+    intro k o o' h h'
+    cases j with
+    | none =>
+        rw [(Cnone (fun jj e => by cases e)).2.1 k, h] at h'; cases h'; exact ⟨rfl, rfl⟩
+    | some jj =>
+        cases hoj : s.obj jj with
+        | none =>
+            rw [(Cnone (fun jj' e => by cases e; exact hoj)).2.1 k, h] at h'; cases h'; exact ⟨rfl, rfl⟩
+        | some ojj =>
+            rw [(Csome jj ojj rfl hoj).2.1 k] at h'
+            by_cases ek : k = jj
+            · subst ek; rw [hoj] at h; cases h; simp only [if_true] at h'; cases h'; exact ⟨rfl, rfl⟩
+            · simp only [ek, if_false] at h'; rw [h] at h'; cases h'; exact ⟨rfl, rfl⟩
+  cases f with
+  | addF i h =>
+      simp only [stepF]
+      cases hi : s.obj i with
+      | none => exact refl3
+      | some o =>
+          simp only []
+          split
+          · exact refl3
+          · obtain ⟨A1, -, -, ⟨o', e1, e2, e3⟩, A5⟩ := addH_spec I hi h
+            refine ⟨A1, ?_, ?_⟩
+            · have H0 : HeapOk { s with given := s.given ++ [h] } := heapOk_of_eq I.heap rfl rfl rfl [] (by simp)
+              have O0 : Own { s with given := s.given ++ [h] } := own_of_eq I.own rfl rfl
+              exact (add_spec H0 O0 (show ({ s with given := s.given ++ [h] } : State).obj i = some o from hi) h).len
+            · intro k o0 o0' h0 h0'
+              by_cases ek : k = i
+              · subst ek; rw [hi] at h0; cases h0; rw [e1] at h0'; cases h0'; exact ⟨e2, e3⟩
+              · rw [A5 k ek, h0] at h0'; cases h0'; exact ⟨rfl, rfl⟩
+  | mergeF i j k =>
+      simp only [stepF]
+      cases hi : s.obj i with
+      | none => exact refl3
+      | some oi =>
+          cases hj : s.obj j with
+          | none => exact refl3
+          | some oj =>
+              simp only []
+              split
+              · exact refl3
+              · rename_i hij
+                rcases mergeF_spec I hi hj hij k with e | ⟨-, MI, -, MQ, ⟨oi', e1, e2, e3⟩, Mo⟩
+                · rw [e]
+                  obtain ⟨M1, -, -, -, M5, ⟨oi', e1, e2, e3⟩, ej, eo⟩ := merge_spec I hi hj hij
+                  refine ⟨M1, M5.len, ?_⟩
+                  intro x o o' h1 h2
+                  by_cases exi : x = i
+                  · subst exi; rw [hi] at h1; cases h1; rw [e1] at h2; cases h2; exact ⟨e2, e3⟩
+                  · by_cases exj : x = j
+                    · subst exj; rw [hj] at h1; cases h1; rw [ej] at h2; cases h2; exact ⟨rfl, rfl⟩
+                    · rw [eo x exi exj, h1] at h2; cases h2; exact ⟨rfl, rfl⟩
+                · refine ⟨MI, MQ.len, ?_⟩
+                  intro x o o' h1 h2
+                  by_cases exi : x = i
+                  · subst exi; rw [hi] at h1; cases h1; rw [e1] at h2; cases h2; exact ⟨e2, e3⟩
+                  · rw [Mo x exi, h1] at h2; cases h2; exact ⟨rfl, rfl⟩
+  | call hs j throws =>
+      simp only [stepF]
+      split
+      · exact refl3
+      · exact call_case hs j
+  | createX hs =>
+      simp only [stepF]
+      split
+      · rename_i ha
+        obtain ⟨R, Robj, -⟩ := ready_spec I ha hs
+        exact ⟨R, rfl, fun k o o' h h' => by rw [Robj k, h] at h'; cases h'; exact ⟨rfl, rfl⟩⟩
+      · exact call_case hs none
+  | isActive => exact refl3
+
 theorem inv_step {s : State} (I : Inv s) (op : Op) : Inv (step s op).1 := by
   cases op with
+  | fault f => exact (stepF_spec I f).1
   | ctor i =>
       simp only [step]; split
       · have := (ctor_spec I ‹_› {} [] (by simp) rfl (by simp) (by simp)).1
@@ -1506,6 +1834,7 @@ theorem run_append (s : State) (a b : List Op) : run s (a ++ b) = run (run s a) 
 
 theorem step_len {s : State} (I : Inv s) (op : Op) : (step s op).1.objs.length = s.objs.length := by
   cases op with
+  | fault f => exact (stepF_spec I f).2.1
   | ctor i => simp only [step]; split <;> simp
   | ctorH i h => simp only [step]; split <;> simp
   | ctorV i v => simp only [step]; split <;> simp
@@ -1739,6 +2068,7 @@ theorem step_value_frame {s : State} (I : Inv s) (op : Op) :
       · subst ekj; rw [hj] at h1; cases h1; rw [ej] at h2; cases h2; exact ⟨rfl, rfl⟩
       · rw [eo k eki ekj, h1] at h2; cases h2; exact ⟨rfl, rfl⟩
   cases op with
+  | fault f => left; exact (stepF_spec I f).2.2
   | ctor i => left; simp only [step]; split; exact ctor_case s i _ rfl ‹_›; exact ValFrame.refl s
   | ctorH i h => left; simp only [step]; split; exact ctor_case _ i _ rfl ‹_›; exact ValFrame.refl s
   | ctorV i v => left; simp only [step]; split; exact ctor_case s i _ rfl ‹_›; exact ValFrame.refl s
